@@ -6,7 +6,7 @@ P=$1
 git checkout -- evidence 2>/dev/null || true
 git merge agent-$P -m "Merge agent-$P" >/dev/null 2>&1 || true
 for f in $(git diff --name-only --diff-filter=U | grep "^evidence/"); do git checkout --theirs $f; git add $f; done
-git checkout --ours MANIFEST.json known_findings.json DESIGN.md 2>/dev/null || true
+for f in MANIFEST.json known_findings.json DESIGN.md; do git checkout --ours $f 2>/dev/null && git add $f 2>/dev/null; done || true
 git rm -q --cached coq/_CoqProject 2>/dev/null || true
 for f in $(git diff --name-only --diff-filter=U); do echo "UNRESOLVED: $f"; UNRES=1; done
 if [ -n "$UNRES" ]; then echo "merge left with conflicts: resolve by hand, then run mkmanifest/mkdesign and commit"; exit 1; fi
